@@ -41,6 +41,10 @@ pub enum Finish {
 pub fn read_some<R: std::io::Read + ?Sized>(reader: &mut R, buf: &mut [u8], want: usize) -> std::io::Result<usize> {
     if want % 2 == 1 {
         reader.read_vectored(&mut [std::io::IoSliceMut::new(&mut buf[..want])])
+    } else if want % 8 == 4 {
+        // an empty buffer first: the read goes into the first non-empty one
+        let (a, b) = buf[..want].split_at_mut(0);
+        reader.read_vectored(&mut [std::io::IoSliceMut::new(a), std::io::IoSliceMut::new(b)])
     } else if want % 4 == 2 && want >= 2 {
         let (a, b) = buf[..want].split_at_mut(want / 2);
         reader.read_vectored(&mut [std::io::IoSliceMut::new(a), std::io::IoSliceMut::new(b)])
@@ -347,6 +351,8 @@ fn app_thread(server: std::sync::Arc<Server>, script: Vec<Action>, tx: mpsc::Sen
                 None => "none".into(),
             },
         });
+        let hdrs_at_receipt: Vec<(Vec<u8>, Vec<u8>)> = rq.headers().iter().map(|h| (h.field.as_str().as_bytes().to_vec(), h.value.as_bytes().to_vec())).collect();
+        let len_at_receipt = rq.body_length();
         // the handler proper; a panic in it is caught here, as a worker thread would
         let tx2 = tx.clone();
         let res = std::panic::catch_unwind(std::panic::AssertUnwindSafe(move || {
@@ -397,10 +403,13 @@ fn app_thread(server: std::sync::Arc<Server>, script: Vec<Action>, tx: mpsc::Sen
             if !via_stream {
                 let _ = tx2.send(Ev::ReadEnd(end));
             }
+            // what the request says about itself does not change while it is being handled
+            let hdrs_now: Vec<(Vec<u8>, Vec<u8>)> = rq.headers().iter().map(|h| (h.field.as_str().as_bytes().to_vec(), h.value.as_bytes().to_vec())).collect();
+            let stable = hdrs_now == hdrs_at_receipt && rq.body_length() == len_at_receipt;
             if a.delay_ms > 0 && a.delay_ms < PRE_DELAY {
                 std::thread::sleep(Duration::from_millis(a.delay_ms));
             }
-            match &a.fin {
+            stable && match &a.fin {
                 Finish::Respond(r) => rq.respond(mk_response(r)).is_ok(),
                 Finish::RespondFail(r, n) => {
                     // an error caused by the application's own reader is not a client fault: any result is fine
